@@ -40,6 +40,7 @@ type Gen struct {
 	invalidPct    int
 	taint         string // the finding this history has triggered (set by the runner)
 	pending       string
+	buildSteps    int // first steps after the prefix: build nested signal structures
 }
 
 const nNames = 5
@@ -246,6 +247,20 @@ func (g *Gen) nextOp(p *Pool) Op {
 			k -= x.weight
 		}
 		wantRefusal := g.r.chance(g.invalidPct)
+		if g.buildSteps > 0 {
+			// nested multiplexers first, then into messages
+			names := []string{"MuxInsertSignal", "MuxInsertSignal", "MsgAppendSignal", "MsgInsertSignal"}
+			want := names[g.r.below(len(names))]
+			for _, x := range templates {
+				if x.name == want {
+					t = x
+				}
+			}
+			wantRefusal = false
+			if tries > 6 {
+				g.buildSteps = 0
+			}
+		}
 		var fallback *Op
 		for c := 0; c < 10; c++ {
 			o, ok := t.make(g, p)
@@ -271,6 +286,9 @@ func (g *Gen) nextOp(p *Pool) Op {
 			}
 			ex := expect(p, o)
 			if (len(ex.Refusals) > 0) == wantRefusal {
+				if g.buildSteps > 0 {
+					g.buildSteps--
+				}
 				return o
 			}
 			oc := o
